@@ -164,6 +164,7 @@ func (x *Exec) run() {
 	x.obls = append(x.obls, &Obligation{Name: x.key + "/cover[requires]#1", Kind: "cover", Func: x.key, Text: "requires satisfiable", PC: st.pc, Goal: False, NDecls: len(x.decls), NAssert: len(x.asserts)})
 	entrySt := st.clone()
 	out, rv := x.execBody(fn, st, args, binds, true)
+	x.lastResult = rv
 	if x.fc != nil && out.pc.S != "false" {
 		penv := &SpecEnv{x: x, st: out, old: entrySt, vars: map[string]SVal{}, pkg: x.pkgOf(fn)}
 		for i, p := range fn.Params {
